@@ -220,6 +220,8 @@ def run(chk):
                 # model line (only when we know the exact wire bytes)
                 wire_sent = getattr(resp, "wire", None)
                 mlines.append((idx, mode, cor, wire_sent, sha_hdr, md5v if c["use_md5"] else None, c["algo"], ckv, declared, seed, keyb, stsP, stsT, dexp))
+            # ---- directory objects: the payload is empty, the integrity assertions of the request still have to hold
+            dres = dirobj_cases(chk, cl, label, rnd)
             chk.tie("gateway still running after the uploads", g.alive(), g.log_tail())
 
     # ---- model predictions
@@ -281,6 +283,64 @@ def run(chk):
     chk.tie("T3 PutObject/UploadPart outcomes of the real gateway = extracted Model.Pipeline.upload_outcome on %d uploads" % len(results), not bad, bad[:5])
     chk.samples.extend([{k: v for k, v in r.items() if k not in ("dexp", "after", "before")} for r in results[3:6]])
 
+
+
+def dirobj_cases(chk, cl, label, rnd):
+    """PutObject of a key ending in "/" (a directory object, empty payload) with each integrity field right and wrong, on an absent
+    key and on an existing directory object; a refused request leaves the key as it was."""
+    empty = b""
+    md5ok = base64.b64encode(hashlib.md5(empty).digest()).decode()
+    out = []
+    n = 0
+    for cor in ("none", "wrong-md5", "wrong-sha256", "wrong-cksum-crc32", "wrong-cksum-sha256", "wrong-chunk-sig", "wrong-trailer"):
+        for had_old in (False, True):
+            n += 1
+            key = "dirobj%s%d/" % (label, n)
+            path = "/bk1/" + key
+            if had_old:
+                r0 = cl.req("PUT", path, body=b"", headers={"x-amz-meta-old": "1"})
+                chk.require(r0.status == 200, "c06:valid-upload-rejected-or-altered:dirobj", "a valid PutObject of the directory object %s answered %s" % (key, r0))
+            headers = {"x-amz-meta-new": "1"}
+            if cor in ("none", "wrong-md5"):
+                headers["Content-MD5"] = wrong_b64(md5ok) if cor == "wrong-md5" else md5ok
+            if cor.startswith("wrong-cksum-"):
+                algo = cor.split("-")[2]
+                headers["x-amz-checksum-" + algo] = wrong_b64(cksum(algo, empty))
+            if cor == "wrong-sha256":
+                resp = cl.req("PUT", path, body=empty, headers=headers, payload_hash=hashlib.sha256(b"x").hexdigest())
+            elif cor in ("wrong-chunk-sig", "wrong-trailer"):
+                headers.update({"x-amz-decoded-content-length": "0", "content-encoding": "aws-chunked"})
+                if cor == "wrong-trailer":
+                    headers["x-amz-trailer"] = "x-amz-checksum-crc32"
+                def make_body(sig, k, amzdate, d8, region, cor=cor):
+                    if cor == "wrong-trailer":
+                        b = chunkenc.encode_unsigned([], "crc32")
+                        i = b.rindex(b"x-amz-checksum-crc32:") + 21
+                    else:
+                        b = chunkenc.encode_signed([], k, sig, None, amzdate, d8, region)
+                        i = b.index(b"chunk-signature=") + 16
+                    bb = bytearray(b); bb[i] = ord("B") if bb[i] != ord("B") else ord("C")
+                    return bytes(bb)
+                resp, _ = cl.req_streaming("PUT", path, make_body, headers=headers,
+                                           payload_type="STREAMING-UNSIGNED-PAYLOAD-TRAILER" if cor == "wrong-trailer" else "STREAMING-AWS4-HMAC-SHA256-PAYLOAD")
+            else:
+                resp = cl.req("PUT", path, body=empty, headers=headers)
+            hd = cl.req("HEAD", path)
+            state = None if hd.status != 200 else tuple(sorted(e2e.meta_of(hd.headers).items()))
+            before = (("old", "1"),) if had_old else None
+            view = {"config": label, "key": key, "corruption": cor, "had_old": had_old, "status": resp.status, "code": resp.code, "state_after": state}
+            chk.case(("c06-dirobj", label, cor, had_old), True)
+            chk.count("dirobj:%s:%s" % (cor, "commit" if resp.status == 200 else "fail"))
+            chk.traces += 1
+            if cor == "none":
+                if resp.status != 200 or state is None or ("new", "1") not in state:      # (whether the old user metadata goes away is C01's question)
+                    chk.fail("c06:valid-upload-rejected-or-altered:dirobj", "a valid PutObject of a directory object answered %d %s; the key then has user metadata %r" % (resp.status, resp.code, state), view)
+            elif resp.status == 200:
+                chk.fail("c06:corrupt-upload-committed:dirobj:%s" % cor, "a PutObject of a directory object (empty payload) with %s was acknowledged with 200" % cor, view)
+            elif state != before:
+                chk.fail("c06:failed-upload-changed-key:dirobj:%s" % cor, "a refused PutObject of a directory object (%s, %d %s) changed the key's state from %r to %r" % (cor, resp.status, resp.code, before, state), view)
+            out.append(view)
+    return out
 
 def code_matches(model_err, status, code):
     exp = {"Sha256Mismatch": {"XAmzContentSHA256Mismatch"}, "InvalidDigest": {"InvalidDigest", "BadDigest"}, "BadChecksum": {"BadDigest"},
